@@ -40,7 +40,7 @@ ASSUMPTIONS = [
     "issubclass defines the order on plain classes, ABCs and protocols",
     "different-origin generic pairs are evidence only (the statement fixes the same-origin case)",
 ]
-REPORT_COUNTERS = ["hierarchies", "pairs_L1", "reflexive_L2", "reflexive_respelled_L2", "class_pairs_L3", "class_triples_L3", "generic_L4",
+REPORT_COUNTERS = ["hierarchies", "pairs_L1", "reflexive_L2", "reflexive_respelled_L2", "dependent_admits_own_bound_L2", "class_pairs_L3", "class_triples_L3", "generic_L4",
                    "member_L5", "late_registration_L3", "pairs_seen_in_dispatch", "online_mirror_checked", "exceptions"]
 
 
@@ -109,6 +109,10 @@ def gen_case(rng, params, idx):
         if h == "I" and any((not isinstance(x, str)) and x[0] in ("G", "Ty") for x in (a, b)):
             h = "U"
         lvl2.append(flatten([h, a, b]))
+    # unions that contain a value-dependent member whose *bound* is itself a union / a class-check type
+    x_ = rng.choice(plain)
+    lvl2 += [["U", ["L", 0, "a"], x_], ["U", x_, ["L", "a", 0]], ["U", ["D", ["U", ua, ub], "truthy"], x_],
+             ["U", ["D", ["H", "bit_length"], "truthy"], x_], ["I", ["L", 0, "a"], ["H", "bit_length"]]]
     lvl2 += [["T", rng.choice(lvl1[:28])], ["G", "list", ["G", "list", rng.choice(plain)]], ["Ty", ["G", "list", rng.choice(plain)]]]
     types, seen = [], set()
     for t in atoms + lvl1 + lvl2:
@@ -317,6 +321,23 @@ def check_case(spec, res):
             if r is not Order.SAME:
                 res.violation("L2-reflexive-respelled", [label, sorted(T.heads(t))], spec,
                               observed={"type": n, "mirrored": str(om)[:120], "result": str(r)}, acceptable="SAME")
+    # L2c: building block of the union / bound laws - at the type level a value-dependent type admits its own bound
+    # (whatever the bound is: a class, a union of classes, a structural type).  F8's classifier takes the library's
+    # sub-comparisons as given, so a break here would otherwise be filed under F8.
+    from ovld.mro import subclasscheck as _sc
+    for n, o in objs.items():
+        b = getattr(o, "bound", None)
+        if isinstance(o, _dep.DependentType) and b is not None:
+            res.ev()
+            res.count("dependent_admits_own_bound_L2")
+            try:
+                r = _sc(b, o)
+            except Exception as e:  # noqa: BLE001
+                r = ("EXC", type(e).__name__)
+            if r is not True:
+                res.violation("L2-dependent-type-rejects-its-own-bound", [type(b).__name__], spec,
+                              observed={"type": n, "bound": str(b)[:80], "subclasscheck(bound, type)": str(r)},
+                              acceptable=True)
     # L1
     for (i, a), (j, b) in itertools.combinations(enumerate(types), 2):
         na, nb = names[i], names[j]
